@@ -160,7 +160,9 @@ class SymRun:
         ex = self.ex
         if op[0] == 'add': self.add(op[1]); return
         if op[0] == 'union':
-            r = ex.call(self.M('EGraph::union'), [self.egref, self.href(op[1]), self.href(op[2])])
+            if len(op) > 3:      # union with a justification (explanations)
+                r = ex.call(self.M('EGraph::union_justified'), [self.egref, self.href(op[1]), self.href(op[2]), some(PyStr(op[3]))])
+            else: r = ex.call(self.M('EGraph::union'), [self.egref, self.href(op[1]), self.href(op[2])])
             self.last_union = ex.decide(r) if z3.is_expr(r) else bool(r); return
         if op[0] == 'readd':
             # C09: re-insertion of a represented term (same names) must allocate nothing and return an equal invocation
@@ -202,6 +204,12 @@ class SymRun:
             lk = ex.call(self.M('lookup_rec_expr'), [Ref(re_, 'r'), self.egref])
             self.extra = {'extract': {'cf': cf, 'cost': conc(cost), 'term': self.describe_rec(re_['r']), 'lookup_some': lk.disc == 1,
                                       'lookup_eq': self.eq(lk.payload.f[0], self.handles[term]) if lk.disc == 1 else None}}
+            return
+        if op[0] == 'explain':
+            # C07: EGraph::explain_equivalence on two terms given as RecExpr; the returned proof DAG is dumped with every equation written out on terms (get_syn_expr)
+            ra, rb = self.rec_expr(op[1]), self.rec_expr(op[2])
+            prf = ex.call(self.M('EGraph::explain_equivalence'), [self.egref, ra, rb])
+            self.extra = {'explain': self.dump_proof(prf)}
             return
         if op[0] == 'mmatch':
             # multi-pattern: list of equations (?v, node pattern whose children are variables)
@@ -317,6 +325,48 @@ class SymRun:
             elif kind == 'b': out.append(node.payload.f[fi].f[0].f[0])
             else: out.append(self.describe_rec(kids.pop(0))); fi += 1
         return out
+
+    def rec_expr(self, term):
+        vname, sig = self.variants[term[0]]
+        fields = {}; kids = []; i = 1; fi = 0; pending = None
+        for kind in sig:
+            a = term[i]; i += 1
+            if kind == 's': fields[fi] = slot(self.N[a]); fi += 1
+            elif kind == 'p': fields[fi] = U32(a); fi += 1
+            elif kind == 'b': pending = a
+            else:
+                kids.append(self.rec_expr(a))
+                if pending is not None: fields[fi] = Struct({0: slot(self.N[pending]), 1: self.null_id()}, 'Bind'); pending = None
+                else: fields[fi] = self.null_id()
+                fi += 1
+        return Struct({0: Enum(self.S.enums[self.lang + '::' + vname], Struct(fields), self.lang), 1: VecVal(kids)}, 'RecExpr')
+
+    def dump_proof(self, prf):
+        """proof DAG -> {'root': k, 'nodes': [{'rule', 'l': term, 'r': term, 'prem': [k..], 'just'}]}; terms via EGraph::get_syn_expr (all syntactic slots written out)"""
+        ex = self.ex; E = self.S.enums
+        rules = {E['Proof::Explicit']: 'explicit', E['Proof::Reflexivity']: 'refl', E['Proof::Symmetry']: 'sym', E['Proof::Transitivity']: 'trans', E['Proof::Congruence']: 'cong'}
+        ei = self.S.field_index('ProvenEqRaw', 'eq'); pi_ = self.S.field_index('ProvenEqRaw', 'proof')
+        index = {}; nodes = []
+        def term_of(aid):
+            re_ = {'r': ex.call(self.M('EGraph::get_syn_expr'), [self.egref, Ref({'a': aid}, 'a')])}
+            return self.describe_rec(re_['r'])
+        def visit(arc):
+            raw = dd(arc); key = id(raw)
+            if key in index: return index[key]
+            k = len(nodes); index[key] = k; nodes.append(None)
+            eq = raw.f[ei]; pr = raw.f[pi_]
+            rule = rules[pr.disc]; prem = []; just = None
+            inner = pr.payload.f[0]
+            if rule == 'explicit':
+                o = inner.f[0]
+                just = str(dd(o.payload.f[0])) if o.disc == 1 else None
+            elif rule == 'sym': prem = [visit(inner.f[0])]
+            elif rule == 'trans': prem = [visit(inner.f[0]), visit(inner.f[1])]
+            elif rule == 'cong': prem = [visit(x) for x in dd(inner.f[0]).items]
+            nodes[k] = {'rule': rule, 'l': term_of(eq.f[0]), 'r': term_of(eq.f[1]), 'prem': prem, 'just': just}
+            return k
+        root = visit(prf)
+        return {'root': root, 'nodes': nodes}
 
     def describe_node(self, node):
         """e-node value -> [op, slot value | {'id', 'map': [[key, value]...]} ...] (binder slot before its child)"""
@@ -526,6 +576,9 @@ def concretize(run, ex):
             if 'extract' in st:
                 def dt(t): return [t[0]] + [dt(a) if isinstance(a, list) else norm_fresh(str(name_of_value_(a, N, vals, model))) for a in t[1:]]
                 st['extract'] = dict(st['extract']); st['extract']['term'] = dt(st['extract']['term'])
+            if 'explain' in st:
+                def pt(t): return [t[0]] + [pt(a) if isinstance(a, list) else (a if isinstance(a, tuple) else str(name_of_value_(a, N, vals, model))) for a in t[1:]]
+                st['explain'] = {'root': st['explain']['root'], 'nodes': [dict(nd, l=pt(nd['l']), r=pt(nd['r'])) for nd in st['explain']['nodes']]}
             if 'ematch' in st:
                 def dh(h): return None if h is None else {'id': h['id'], 'vals': sorted(norm_fresh(str(name_of_value_(v, N, vals, model))) for v in h['vals'])}
                 st['ematch'] = {'unchanged': st['ematch']['unchanged'], 'matches': sorted(({'bound': mt['bound'], 'found': mt['found'], 'inst': dh(mt['inst']), 'binds': {k: dh(v) for k, v in mt['binds'].items()}} for mt in st['ematch']['matches']), key=lambda x: json.dumps(x, sort_keys=True))}
